@@ -238,8 +238,10 @@ PROPS = {
             '=> equal tokens), so "carries the identity and expiry the model holds" is equality of tokens',
             'THE CYCLE IS A SUMMARY HERE (assumed contract of Cell.schedule, listed as dependency): the returned list has one '
             '(name, server before, expiry before, server after, expiry after) record per instance of the cell, each once '
-            '(Cell.schedule builds it from Allocation.all_apps of every partition: that these are the cell\'s instances is C06 '
-            'clause 1), member servers list exactly the instances placed on them and placed instances are on member servers '
+            '(the relation between the returned records and the before / after state of the listed instances is PROVED on the '
+            'real Cell.schedule: ./check C01, obligation Cell.schedule#ensures[returns_before_after]; that the listed instances '
+            '- Allocation.all_apps of every partition - are exactly the cell\'s instances, each once, is C06 clause 1 and '
+            'stays assumed), member servers list exactly the instances placed on them and placed instances are on member servers '
             '(C01, proved by ./check C01), and an instance whose server and expiry are unchanged by the cycle keeps its '
             'identity (an identity changes only through removal and re-placement, which computes a new expiry from a later '
             'clock reading - not machine-checked)',
